@@ -271,3 +271,51 @@ MUTANTS["C11"] += [
 MUTANTS["C14"] += [
     M("piecewise-as-max-reduction", "codegen/python.py", "            conds, exprs = _print_Piecewise(self, expr)\n\n            for c, e in zip(conds, exprs):", "            if len(expr.args) == 2 and expr.args[0].cond.is_Relational:\n                return 'numpy.max([' + self._print(expr.args[0].expr) + ', ' + self._print(expr.args[1].expr) + '])'\n            conds, exprs = _print_Piecewise(self, expr)\n\n            for c, e in zip(conds, exprs):", "R14.a"),
 ]
+
+
+# ---- liveness of the rules added by round 7 ---------------------------------------------------------------------------
+MUTANTS["C09"] += [
+    M("dummy-helper-symbol", "schemes.py", "        linearized = sympy.Symbol(linearized_name)\n", "        linearized = sympy.Dummy(linearized_name)\n", "R09.d"),
+    M("first-stateful-dependency-only", "atoms.py", "                        replacement=limit(self.expr, var.symbol, value),\n                    )\n                )\n        return frozenset(singularity_list)", "                        replacement=limit(self.expr, var.symbol, value),\n                    )\n                )\n            break\n        return frozenset(singularity_list)", "R09.a"),
+]
+MUTANTS["C16"] += [
+    M("unknown-name-means-stateless", "atoms.py", "                state = lookup[dep]\n            except KeyError:\n                continue\n            if state.is_stateful(lookup):", "                state = lookup[dep]\n            except KeyError:\n                return False\n            if state.is_stateful(lookup):", "R16.b"),
+]
+MUTANTS["C17"] += [
+    M("free-text-in-format-template", "atoms.py", "            except Exception:\n                logger.warning(f\"Invalid unit {unit_str!r}\")", "            except Exception as ex2:\n                logger.warning(f\"Invalid unit {unit_str!r}: %s\", ex2)", "R17.a"),
+    M("annotation-read-through-getattr", "codegen/c.py", "    def imports(self) -> str:", "    def _note(self, atom) -> str:\n        return getattr(atom, \"unit_str\", None) or \"\"\n\n    def imports(self) -> str:", "R17.c"),
+]
+MUTANTS["C18"] += [
+    M("skip-when-output-is-newer", "cli/gotran2c.py", "    ode = load_ode(fname)\n    code = get_code(", "    if outname is not None and Path(outname).is_file():\n        return\n    ode = load_ode(fname)\n    code = get_code(", "R18.b"),
+    M("explicit-config-on-top-of-discovered", "cli/utils.py", "    # If no path is given, try to find the pyproject.toml file\n    if path is None:\n        path = find_pyproject_toml_config()", "    extra = find_pyproject_toml_config()\n    # If no path is given, try to find the pyproject.toml file\n    if path is None:\n        path = extra", "R18.c"),
+]
+MUTANTS["C19"] += [
+    M("reserved-words-replaced", "codegen/jax.py", "class JaxPrinter(GotranPythonCodePrinter):\n", "class JaxPrinter(GotranPythonCodePrinter):\n    reserved_words = {\"jax\", \"numpy\"}\n\n", "R19.e"),
+]
+MUTANTS["C14"] += [
+    M("and-as-chained-comparison", "codegen/python.py", "    def _print_And(self, expr):\n", "    def _print_And(self, expr):\n        if len(expr.args) == 2 and all(hasattr(a, \"lts\") for a in expr.args) and expr.args[0].gts == expr.args[1].lts:\n            return f\"({self._print(expr.args[0].lts)} < {self._print(expr.args[0].gts)} < {self._print(expr.args[1].gts)})\"\n", "R14.a"),
+]
+MUTANTS["C01"] += [
+    M("asin-is-arcsinh", "codegen/python.py", '        **{"DiracDelta": "numpy.zeros_like"},\n', '        **{"DiracDelta": "numpy.zeros_like"},\n        **{"asin": "numpy.arcsinh"},\n', "R01.h"),
+]
+MUTANTS["C15"] += [
+    M("acos-is-arcsin", "codegen/python.py", '        **{"DiracDelta": "numpy.zeros_like"},\n', '        **{"DiracDelta": "numpy.zeros_like"},\n        **{"acos": "numpy.arcsin"},\n', "R15.d"),
+]
+MUTANTS["C08"] += [
+    M("registry-keyed-by-component-and-name", "transformer.py", "previous = definitions.setdefault(atom.name, atom)", "previous = definitions.setdefault((atom.components, atom.name), atom)", "R08.a"),
+]
+MUTANTS["C11"] += [
+    M("unit-dropped-when-pint-says-dimensionless", "codegen/ode.py", 'if a.unit_str is not None and a.unit_str != "1":', "if a.unit_str is not None and not (a.unit is not None and a.unit.dimensionless):", "R11.b"),
+]
+MUTANTS["C12"] += [
+    M("scheme-relies-on-the-models-linearisation", "schemes.py", "        eqs.append(printer(linearized, expr_diff, use_variable_prefix=True))\n", "        if linearized_name not in ode.symbols:\n            eqs.append(printer(linearized, expr_diff, use_variable_prefix=True))\n", "R12.d", count=2),
+]
+MUTANTS["C05"] += [
+    M("result-aliases-the-input-for-fixed-shapes", "codegen/base.py", "            values_type=rhs.values_type,\n            missing_variables=missing_variables,\n        )\n        return self._format(code)", "            values_type=rhs.values_type if self._shape == Shape.dynamic else rhs.values_type.replace(\"zeros_like\", \"asarray\"),\n            missing_variables=missing_variables,\n        )\n        return self._format(code)", "R05.c"),
+]
+MUTANTS["C03"] += [
+    M("missing-values-renumbered", "cli/gotran2py.py", "        _missing_values = codegen.missing_values(missing_values)", "        _missing_values = codegen.missing_values({name: i for i, name in enumerate(missing_values)})", "R03.c"),
+]
+MUTANTS["C06"] += [
+    M("conditional-shortcut-never-false", "sympytools.py", "true_value if cond else false_value", "true_value if cond is not False else false_value", "R06.a"),
+]
